@@ -63,7 +63,8 @@ def _run_kernel(spec):
             smt2 = None if z3.is_true(c) else solve.to_smt2(ob.hyps, ob.claim)
             outl.append({"name": ob.name, "kind": ob.kind, "line": ob.line, "note": ob.note,
                          "path": [list(p) for p in (ob.path or [])], "smt2": smt2})
-        return {"stats": st, "src": k.src, "obligations": outl}
+        src = k.src if isinstance(k.src, (dict, type(None))) else extract.fn_source(k.fn)   # a contract must not reuse .src
+        return {"stats": st, "src": src, "obligations": outl}
     except Gap as g:
         return {"gap": str(g)}
     except Exception as ex:
